@@ -320,7 +320,7 @@ func TestVerifC05(t *testing.T) {
 			// too many schedules to enumerate: add as many uniformly random walks through the schedule tree
 			w.Sample(level, s, maxRuns, rng.Intn)
 		}
-		w.Comment(fmt.Sprintf("scenario %s threads=%d schedules=%d truncated=%v", s.Name, len(s.Threads), n, cut))
+		w.Count(s, n, cut)
 	}
 
 	// sequential replays around the real TTLs (clock control: miniredis)
